@@ -12,7 +12,8 @@ What is proved here (about the definitions the driver executes, `Model/Registry.
   * `query_exact`, `query_piecewise_const`            — the lookup, for every table and address;
   * `index_delimits_oui/_iab`, `index_rows_oui/_iab`, `index_no_record`, `oui_recKey`, `iab_recKey`,
     `iab_second_base16`, `specRows_total`              — the index parsers on every well-formed text;
-  * `parseLines_ok`, `parseLines_ok_iff`, `parseLines_err`, `registered_iff`, `lookup_spec`
+  * `parseLines_ok`, `parseLines_ok_iff`, `parseLines_err`, `registered_iff`, `lookup_spec`,
+    `lookup_through_index_oui/_iab`
                                                         — record retrieval through the index.
 What is data and tied by the harness only: the contents of the XML / idx / txt files, the SAX
 loader and its normalisers, UTF-8 decoding, `csv`.
@@ -531,6 +532,88 @@ theorem lookup_spec (read : Nat → Nat → List Char) (index : List (Nat × Nat
         simp only [bind, Except.bind, pure, Except.pure] at h
         injection h with h; subst h
         exact ⟨xs, rfl, hp⟩
+
+/-! ## corollaries in the words of the property -/
+
+/-- none missing, none extra, in the words of the property: every row delimits one record of the
+    text and carries its identifier; every record of the text has its row; as many rows as records -/
+theorem index_rows_complete {K : Type} (start : Line → R K) (cont : K → Line → R K)
+    (hd : List Line) (recs : List (List Line)) (w : WellFormed hd recs) (rows : List (Row K))
+    (h : genLoop start cont (pyLines (hd ++ recs.flatten).flatten) true none 0 0 = .ok rows) :
+    rows.length = recs.length ∧
+    (∀ row ∈ rows, ∃ r ∈ recs, recKey start cont r = .ok row.1 ∧
+      slice (hd ++ recs.flatten).flatten row.2.1 row.2.2 = r.flatten) ∧
+    (∀ r ∈ recs, ∃ row ∈ rows, recKey start cont r = .ok row.1 ∧
+      slice (hd ++ recs.flatten).flatten row.2.1 row.2.2 = r.flatten) := by
+  have := (genIndex_rows start cont hd recs w rows h).1
+  exact ⟨this.length_eq, this.left, this.right⟩
+
+/-- the answer lists records in table order, each at most as often as the table has it -/
+theorem query_sublist (T : Tables) (a : Addr) :
+    (query T a).ipv4.Sublist T.ipv4 ∧ (query T a).ipv6.Sublist T.ipv6 ∧
+    (query T a).ipv6u.Sublist T.ipv6u ∧ (query T a).mcast.Sublist T.mcast := by
+  unfold query scan
+  split
+  · refine ⟨List.filter_sublist, by simp, by simp, ?_⟩
+    split
+    · exact List.filter_sublist
+    · simp
+  · split
+    · exact ⟨by simp, List.filter_sublist, List.filter_sublist, by simp⟩
+    · simp
+
+/-- **index then lookup (OUI)**: build the index of a well-formed registry text with the OUI
+    parser, load it (`int` keys), look an identifier up with seek+read on the same text: every
+    registration returned is the parse of exactly one record of the text, and that record's
+    identifier is the one asked for. -/
+theorem lookup_through_index_oui (hd : List Line) (recs : List (List Line)) (w : WellFormed hd recs)
+    (rows : List (Row Int)) (h : ouiIndex (hd ++ recs.flatten).flatten = .ok rows)
+    (decode : List Nat → List Char) (v : Nat) (out : List (Nat × Nat × Parsed))
+    (hl : ouiRecords (fun o s => decode (slice (hd ++ recs.flatten).flatten o s))
+            (rows.map (fun r => (r.1.toNat, r.2.1, r.2.2))) v = .ok out) :
+    ∀ x ∈ out, ∃ r ∈ recs, (∃ k : Int, recKey ouiStart ouiCont r = .ok k ∧ k.toNat = v) ∧
+      parseRecord (decode r.flatten) = .ok x.2.2 := by
+  intro x hx
+  have hall := (lookup_spec _ _ v).1 out hl
+  obtain ⟨row, hrow, h1, h2, h3⟩ := hall.right x hx
+  simp only [lookupRows, List.mem_map, List.mem_filter, beq_iff_eq] at hrow
+  obtain ⟨t, ⟨⟨⟨k, o, s⟩, hmem, rfl⟩, hk⟩, rfl⟩ := hrow
+  simp only at hk h3
+  have hrows := (index_rows_oui hd recs w rows h).1
+  obtain ⟨r, hr, hkey, hsl⟩ := hrows.left (k, o, s) hmem
+  simp only at hkey hsl
+  refine ⟨r, hr, ⟨k, hkey, hk⟩, ?_⟩
+  rw [← hsl]; exact h3
+
+/-- how `load_index` reads the rows the IAB parser wrote: the key column must be an int -/
+def iabLoaded (rows : List (Row IabKey)) : List (Nat × Nat × Nat) :=
+  rows.filterMap (fun r => match r.1 with
+    | .num n => some (n.toNat, r.2.1, r.2.2)
+    | .raw _ => none)
+
+/-- **index then lookup (IAB)** -/
+theorem lookup_through_index_iab (hd : List Line) (recs : List (List Line)) (w : WellFormed hd recs)
+    (rows : List (Row IabKey)) (h : iabIndex (hd ++ recs.flatten).flatten = .ok rows)
+    (decode : List Nat → List Char) (v : Nat) (x : Nat × Nat × Parsed)
+    (hl : iabRecord (fun o s => decode (slice (hd ++ recs.flatten).flatten o s)) (iabLoaded rows) v = .ok x) :
+    ∃ r ∈ recs, (∃ k : Int, recKey iabStart iabCont r = .ok (.num k) ∧ k.toNat = v) ∧
+      parseRecord (decode r.flatten) = .ok x.2.2 := by
+  obtain ⟨rest, hrow, h3⟩ := (lookup_spec _ _ v).2 x hl
+  have hmem : (x.1, x.2.1) ∈ lookupRows (iabLoaded rows) v := by rw [hrow]; simp
+  simp only [lookupRows, iabLoaded, List.mem_map, List.mem_filter, List.mem_filterMap, beq_iff_eq] at hmem
+  obtain ⟨t, ⟨⟨⟨k, o, s⟩, hm, hk0⟩, hk⟩, ht⟩ := hmem
+  cases k with
+  | raw b => simp at hk0
+  | num n =>
+    simp only [Option.some.injEq] at hk0
+    subst hk0
+    simp only [Prod.mk.injEq] at ht hk
+    obtain ⟨rfl, rfl⟩ := ht
+    have hrows := (index_rows_iab hd recs w rows h).1
+    obtain ⟨r, hr, hkey, hsl⟩ := hrows.left (.num n, x.1, x.2.1) hm
+    simp only at hkey hsl
+    refine ⟨r, hr, ⟨n, hkey, hk⟩, ?_⟩
+    rw [← hsl]; exact h3
 
 /-! ## non-vacuity: concrete instances -/
 
